@@ -34,9 +34,12 @@ PLAN = {
     "thorough": {"shards": 16, "shard_timeout": 3600, "case_timeout": 120, "inproc": 40000, "strace": 120, "failpoints": 2400, "sigkill": 300, "max_case_timeouts": 8},
 }
 THRESHOLDS = {
-    "quick": {"disk_reads_after_register": 3000, "rows_compared": 3000, "multi_objective_rows": 800, "extra_field_cells": 1500, "simplegp_runs": 10, "strace_runs": 6, "strace_writes": 100, "crash_files_checked": 40, "set:kill_points": 15, "only_best_runs": 60},
+    "quick": {"disk_reads_after_register": 3000, "rows_compared": 3000, "multi_objective_rows": 800, "extra_field_cells": 1500, "simplegp_runs": 10, "strace_runs": 6, "strace_writes": 100, "crash_files_checked": 40, "set:kill_points": 15, "only_best_runs": 60, "set:special_cells_seen": 12},
     "thorough": {"disk_reads_after_register": 80000, "crash_files_checked": 650, "set:kill_points": 60, "strace_runs": 35},
 }
+
+
+NASTY = ["a\rb", "\r", "a\nb", "\r\n", 'q"q', "c,d", "semi;colon", "tab\there", "", " lead", "trail ", "caf\u00e9", "x" * 300, "'single'", "a\\b"]
 
 
 def gen_cases(tier, seed):
@@ -110,7 +113,11 @@ def run_inproc(case, rec):
 
     prob = SingleObjectiveProblem(lambda p: table[id(p)][0], minimize=rng.random() < 0.5) if nobj == 1 else MultiObjectiveProblem([rng.random() < 0.5 for _ in range(nobj)], fm)
     path = os.path.join(core.SCRATCH, f"inproc-{case['seed']}.csv")
-    extra = {"Size": lambda t, i, p: len(evo.text(i.get_phenotype())), "Tag": lambda t, i, p: "x," + evo.text(i.get_phenotype())[:6] + '"q'}
+    def nasty(i):  # one special character at a time, chosen by the program (quoting must hold for each on its own)
+        k = evo.stable_hash(evo.text(i.get_phenotype())) % len(NASTY)
+        return NASTY[k]
+
+    extra = {"Size": lambda t, i, p: len(evo.text(i.get_phenotype())), "Tag": lambda t, i, p: "x," + evo.text(i.get_phenotype())[:6] + '"q', "Raw": lambda t, i, p: nasty(i)}
     fields = None
     if case["fields"] == "explicit":
         fields = {"A": lambda t, i, p: evo.text(i.get_phenotype()), "B": lambda t, i, p: i.get_fitness(p).fitness_components[-1]}
@@ -120,7 +127,7 @@ def run_inproc(case, rec):
     else:
         model_fields = [("Execution Time", None), ("Phenotype", lambda i: str(i.get_phenotype()))] + [(f"Fitness{k}", (lambda i, k=k: table[id(i.get_phenotype())][k])) for k in range(nobj)]
     if case["fields"] == "extra":
-        model_fields += [("Size", lambda i: len(evo.text(i.get_phenotype()))), ("Tag", lambda i: "x," + evo.text(i.get_phenotype())[:6] + '"q')]
+        model_fields += [("Size", lambda i: len(evo.text(i.get_phenotype()))), ("Tag", lambda i: "x," + evo.text(i.get_phenotype())[:6] + '"q'), ("Raw", nasty)]
     wit = {"objectives": nobj, "fields": case["fields"], "only_best": case["only_best"], "registrations": case["n"]}
     state = {"expected": [], "bad": False}
 
@@ -159,10 +166,12 @@ def run_inproc(case, rec):
             for (name, fn), cell in zip(model_fields, row):
                 if fn is None:
                     continue
-                if name in ("Size", "Tag"):
+                if name in ("Size", "Tag", "Raw"):
                     rec.count("extra_field_cells")
+                    if name == "Raw":
+                        rec.set_add("special_cells_seen", repr(fn(ind)))
                 if not cell_equal(name, cell, fn(ind)):
-                    kind = "fitness-column" if name.startswith("Fitness") else ("extra-field" if name in ("Size", "Tag") else "field")
+                    kind = "fitness-column" if name.startswith("Fitness") else ("extra-field" if name in ("Size", "Tag", "Raw") else "field")
                     rec.violation(f"csv:{kind}-holds-wrong-value:{'multi' if nobj > 1 else 'single'}", dict(wit, row=j, column=name, on_disk=cell, expected=str(fn(ind))))
                     state["bad"] = True
                     return
